@@ -1128,7 +1128,7 @@ EXPLANATION = ("C09 (no peer request or proof can panic or hang the node): enume
                "panic! entry points, RefCell borrows, drain/split/pow) in the call-graph closure of create_proof and verify_and_apply_proof and requires each to be discharged by constant operands "
                "(A1), an automatically found dominating comparison guard over the same terms (A2), a reviewed entry whose required guard is re-verified to dominate (A3) or a reviewed invariant "
                "reported as assumed (A4) (R1, which subsumes bounds provenance: an index bounded against one collection and applied to another is undischarged); requires every natural loop in that "
-               "closure to have an exit condition its body can change (R3); requires the anchored request validations to be present and to precede every use (R4) and to use the prescribed comparison, boundary included (R5).")
+               "closure to have an exit condition its body can change (R3); requires the anchored request validations to be present and to precede every use (R4) and to use the prescribed comparison, boundary included (R5); re-verifies under C09 the reviewed assumption behind into_proof's expect: create_proof returns Ok(None) before into_proof whenever the block value cannot be read, with or without an upgrade (R6 = the clauses of C03.R1).")
 NOT_DECIDED = ("termination of loops whose exit depends on flat-tree arithmetic; panics inside dependency crates (flat_tree, compact_encoding, blake2, ed25519-dalek, intmap are leaves); memory exhaustion; "
                "that the A4 invariants (listed in the evidence as assumed) actually hold; add/mul/shl overflow (numeric fields are bounded below 2^40 by the property).")
 ASSUMPTIONS = ["numeric fields of requests and proofs are below 2^40", "A4 invariants in rules/panic_sites.json (each with a one-line reason) hold"]
